@@ -106,6 +106,10 @@ Next == /\ ~done /\ done' = TRUE
              /\ \A c \in { <<B(0,0,0,128), LE32(0)>>, <<B(224,255,255,255), B(0,252,255,255)>>, <<B(0,0,0,8), LE32(0)>>, <<B(32,0,0,128), LE32(1024)>>,
                            <<LE32(0), LE32(0)>>, <<B(0,0,0,64), LE32(0)>> } :
                   Emit(<<"ts-coord", h, c>>, "tileset", "ts.height+pixelLen", TsCoord(img, c[1], c[2]), "any", <<>>)
+        \* a valid tileset (or bitmap) stored as a standard bitmap that declares k < 256 used colours: loads with a partial palette, every follow-up is safe
+        /\ \A k \in {1, 2, 100, 255} :
+             /\ Emit(<<"tsbmp-partial", k>>, "tileset", "bmp.partial-palette", ImageWith([TsPic(32) EXCEPT !.palette = SubSeq(@, 1, k)], k), "accept", <<>>)
+             /\ Emit(<<"bmp-partial", k>>, "bmp", "bmp.partial-palette", ImageWith(Bm(5, 2, 8, k), k), "accept", <<>>)
         /\ LET std == Encode(TsPic(32)) IN
              /\ Emit(<<"tsbmp-base">>, "tileset", "none", std, "accept", <<>>)
              /\ \A k \in {0, 1, 2, 3, 4, 13, 14, 53, 54, 1077, 1078, 1079, Len(std) - 1} : Emit(<<"tsbmp-prefix", k>>, "tileset", "prefix", SubSeq(std, 1, k), "refuse", <<>>)
